@@ -53,7 +53,7 @@ use std::time::Duration;
 
 /// address-space limit of the child (KiB). Hostile length prefixes are ≥ 2^31, so an unbounded decoder dies.
 const CHILD_AS_LIMIT_KIB: u64 = 1536 * 1024;
-const CHILD_WATCHDOG_S: u64 = 40;
+const CHILD_WATCHDOG_S: u64 = 120;   // > 7 x the in-process watchdog of run_once (10 s + grace 60 s)
 
 /// the injected closure panics only while this is set (first run of a `crash:j` job)
 static ARMED: AtomicBool = AtomicBool::new(false);
